@@ -5,6 +5,14 @@ A function is listed when its body (in $VERIF_REPO/include/etl, third-party code
   * calls `is_constant_evaluated()`                                  -> mech "ice"
   * calls a compiler builtin guarded by `__has_builtin` / `__has_constexpr_builtin`  -> mech "pp"
   * calls a compiler builtin under `#if defined(__clang__)` / `defined(__GNUC__)`     -> mech "cc"
+For an "ice" function the field `ct` says what serves CONSTANT EVALUATION under GCC:
+  * "callee"   the callee(s) (the classic `if (not is_constant_evaluated()) return __builtin_f(x); return callee(x);`)
+  * "builtin"  the same builtin as at run time: the body defines `folds = true` under `defined(TETL_COMPILER_GCC)` and
+               guards the builtin calls with `if (folds or not is_constant_evaluated())`; the callees that precede it
+               (a ladder of special values the compiler does not fold) serve constant evaluation too, the callee after
+               it is reached by other compilers only
+  * "folded"   the builtin wherever the compiler folds it (`if (__builtin_constant_p(__builtin_f(x))) return __builtin_f(x);`
+               under `defined(TETL_COMPILER_GCC)`), the callee for the remaining arguments
 For each such function the extractor records the builtins it calls together with the type guard
 that selects each of them (`same_as<Float, float>`, `is_same_v<T, double>`, `sizeof(UInt) == sizeof(...)`,
 or the parameter type of the overload) and the callee(s) that serve the other path: every `return`
@@ -21,7 +29,7 @@ import os
 import re
 import sys
 
-VERSION = "dispatch-1"
+VERSION = "dispatch-2"
 
 SKIP_DIRS = ("_3rd_party", "_config")
 BUILTIN_RE = re.compile(r"__builtin_\w+")
@@ -29,7 +37,9 @@ HAS_RE = re.compile(r"__has_(?:constexpr_)?builtin\s*\(\s*\w+\s*\)")
 # builtins that are language plumbing, not a second implementation of a library function
 PLUMBING = {"__builtin_is_constant_evaluated", "__builtin_unreachable", "__builtin_addressof", "__builtin_assume_aligned",
             "__builtin_coro_done", "__builtin_coro_resume", "__builtin_coro_destroy", "__builtin_flt_rounds",
-            "__builtin_trap", "__builtin_debugtrap"}
+            "__builtin_trap", "__builtin_debugtrap",
+            # `__builtin_constant_p(__builtin_f(x))`: the test "does the compiler fold this call"; not a path of its own
+            "__builtin_constant_p"}
 
 
 def strip_comments(src):
@@ -157,7 +167,15 @@ def scan_file(path, rel):
         has_pp = bool(HAS_RE.search(body))
         has_cc = bool(re.search(r"defined\s*\(\s*(?:__clang__|__GNUC__|_MSC_VER|TETL_COMPILER_\w+)\s*\)", body))
         mech = "ice" if ice else ("pp" if has_pp else ("cc" if has_cc else "always"))
-        entries.append({"fn": name, "file": rel, "mech": mech, "builtins": builtins, "callees": callees,
+        gcc = re.search(r"defined\s*\(\s*TETL_COMPILER_GCC\s*\)", body) is not None
+        if ice and gcc and re.search(r"\bfolds\s*=\s*true\b", body) and \
+                re.search(r"\bif\s*\(\s*folds\s+or\s+not\s+is_constant_evaluated\(\)\s*\)", body):
+            ct = "builtin"
+        elif ice and gcc and re.search(r"__builtin_constant_p\s*\(\s*__builtin_\w+\s*\(", body):
+            ct = "folded"
+        else:
+            ct = "callee"
+        entries.append({"fn": name, "file": rel, "mech": mech, "ct": ct, "builtins": builtins, "callees": callees,
                         "ptype": ptype})
     # every builtin call of the file must be inside a listed function
     s2 = HAS_RE.sub(lambda m: " " * len(m.group(0)), src)
@@ -186,6 +204,8 @@ def merge(entries):
                     o["callees"].append(c)
             if e["mech"] == "ice":
                 o["mech"] = "ice"
+            if e["ct"] != "callee":
+                o["ct"] = e["ct"]
         else:
             idx[k] = len(out)
             out.append({k2: (list(v) if isinstance(v, list) else v) for k2, v in e.items()})
@@ -228,10 +248,18 @@ def emit(entries, repo_label="$VERIF_REPO"):
     L.append("  | always   -- builtin called unconditionally")
     L.append("  deriving Repr, DecidableEq, BEq")
     L.append("")
+    L.append("/-- what serves constant evaluation of an `ice` entry under GCC (see gen/dispatch.py) -/")
+    L.append("inductive Ct where")
+    L.append("  | callee    -- the callee(s): tetl's or gcem's own code")
+    L.append("  | builtin   -- the run-time builtin (`folds or not is_constant_evaluated()`), after a ladder of special values")
+    L.append("  | folded    -- the builtin wherever the compiler folds it (`__builtin_constant_p`), the callee elsewhere")
+    L.append("  deriving Repr, DecidableEq, BEq")
+    L.append("")
     L.append("structure Entry where")
     L.append("  fn : String")
     L.append("  file : String")
     L.append("  mech : Mech")
+    L.append("  ct : Ct")
     L.append("  /-- (type guard, builtin called under that guard) -/")
     L.append("  builtins : List (String × String)")
     L.append("  /-- what serves the other path: callee names, or `inline:<expr>` -/")
@@ -243,8 +271,8 @@ def emit(entries, repo_label="$VERIF_REPO"):
     for e in entries:
         bs = ", ".join("(%s, %s)" % (lean_str(g), lean_str(b)) for g, b in e["builtins"])
         cs = ", ".join(lean_str(c) for c in e["callees"])
-        rows.append("  { fn := %s, file := %s, mech := .%s,\n    builtins := [%s],\n    callees := [%s] }"
-                    % (lean_str(e["fn"]), lean_str(e["file"]), e["mech"], bs, cs))
+        rows.append("  { fn := %s, file := %s, mech := .%s, ct := .%s,\n    builtins := [%s],\n    callees := [%s] }"
+                    % (lean_str(e["fn"]), lean_str(e["file"]), e["mech"], e["ct"], bs, cs))
     L.append(",\n".join(rows))
     L.append("]")
     L.append("")
@@ -268,7 +296,7 @@ if __name__ == "__main__":
     repo = sys.argv[1] if len(sys.argv) > 1 else os.environ.get("VERIF_REPO", "/repo")
     ents, errs = inventory(repo)
     for e in ents:
-        print("%-16s %-4s %-34s builtins=%s callees=%s" % (e["fn"], e["mech"], e["file"].replace("include/etl/", ""),
+        print("%-16s %-4s %-8s %-34s builtins=%s callees=%s" % (e["fn"], e["mech"], e["ct"], e["file"].replace("include/etl/", ""),
                                                              e["builtins"], e["callees"]))
     for x in errs:
         print("ERROR", x)
